@@ -487,7 +487,7 @@ def _cdb_reference(knots, p):
     return level
 
 
-def coxdeboor_suite(chk, w, rule, maxlen=6, orders=(0, 1, 2, 3), ns=None, fixed=True):
+def coxdeboor_suite(chk, w, rule, maxlen=6, orders=(0, 1, 2, 3), ns=None, fixed=True, ks=(2, 3, 4)):
     """(1) base: the order-0 functions are the indicator functions of the knot intervals (coefficient exactly 1);
        (2) step, as a LINEAR MAP on opaque inputs: applyRecursionRelation<k>(i, s, s') is exactly
            (x - t_i)/(t_{i+k-1} - t_i) s + (t_{i+k} - x)/(t_{i+k} - t_{i+1}) s'   (terms with a zero denominator dropped);
@@ -501,7 +501,7 @@ def coxdeboor_suite(chk, w, rule, maxlen=6, orders=(0, 1, 2, 3), ns=None, fixed=
     w.I.allow_const_scaling = True
     maps = [[0, 2, 4, 6, 8, 10], [0, 1, 4, 6, 11, 13]]
     step_fn = {}
-    for k in (2, 3, 4):
+    for k in ks:
         step_fn[k] = w.method(GEN, "applyRecursionRelation", 3, required=False,
                               pred=lambda d, k=k: ("Spline<%s, %d>" % (w.T, k - 2)) in d["params"][1]["type"])
     have_step = all(v is not None for v in step_fn.values())
@@ -556,7 +556,7 @@ def coxdeboor_suite(chk, w, rule, maxlen=6, orders=(0, 1, 2, 3), ns=None, fixed=
                 # (2) the recursion step as a linear map on opaque lower-order splines
                 if not have_step or vm is not maps[1] and L > 4:
                     continue
-                for k in (2, 3, 4):
+                for k in ks:
                     if L < k + 1:
                         continue
                     f = step_fn[k]
